@@ -258,6 +258,54 @@ def pick(ctx: core.Ctx, cases: list[Any], quick_n: int) -> list[Any]:
     return [cases[i] for i in idx]
 
 
+def symtree_lines(text: str) -> list[tuple[str, str]]:
+    """(model line, implementation line) for every block of the program that holds a symref operation or an
+    operation with regions: the symbols of the block itself (`get_symbols`), those of everything nested below
+    it (`get_nested_symbols`), what the block may forward, and whether `prune_definitions` accepts the block.
+    Tree tokens: `s<n>` = symref operation on symbol n, `(` … `)` = an operation with regions."""
+    from xdsl.transforms import desymref as D
+
+    m, _ = proggen.parse_module_ctx(text)
+    names = sorted({D.get_symbol(o) for o in m.walk() if D.get_symbol(o) is not None})
+    num = {n: i for i, n in enumerate(names)}
+
+    def toks(block: Any) -> list[str]:
+        out: list[str] = []
+        for o in block.ops:
+            sname = D.get_symbol(o)
+            if sname is not None:
+                out.append(f"s{num[sname]}")
+            elif o.regions:
+                out.append("(")
+                for r in o.regions:
+                    for b in r.blocks:
+                        out += toks(b)
+                out.append(")")
+        return out
+
+    def blocks_of(mod: Any) -> list[Any]:
+        return [b for o in mod.walk() for r in o.regions for b in r.blocks]
+
+    def show(xs: Any) -> str:
+        return ",".join(map(str, sorted(num[x] for x in xs)))
+
+    res = []
+    for i, b in enumerate(blocks_of(m)):
+        tk = toks(b)
+        if not tk or isinstance(b.parent_op(), type(m)):
+            continue
+        declared = [num[D.get_symbol(o)] for o in b.ops if o.name == "symref.declare"]
+        direct, nested = D.get_symbols(b), D.get_nested_symbols(b)
+        try:
+            D.Desymrefier().prune_definitions(blocks_of(m.clone())[i])
+            decision = "accept"
+        except Exception as e:  # noqa: BLE001
+            decision = "raise " + core.exc_name(e)
+        res.append((f"symtree {','.join(map(str, declared)) or '-'} " + " ".join(tk),
+                    f"direct {show(direct)} nested {show(nested)} forward {show(direct - nested)} {decision}"))
+    return res
+
+
 def run_models(ctx: core.Ctx) -> None:
     lines: list[str] = []
     expect: list[tuple[str, Any, str, str]] = []      # (kind, params, program, implementation line)
@@ -394,6 +442,29 @@ def run_models(ctx: core.Ctx) -> None:
                      f"fetches delivered {impl}; a symbol store gives {want}", impl, want)
         lines.append("sym " + " ".join(f"u{x}:{v}" if k == "u" else f"f{x}" for k, x, v in ops))
         expect.append(("sym", tuple(ops), text, impl))
+
+    # -- which symbols a block may forward: get_symbols / get_nested_symbols / the refusal of prune_definitions ---
+    # on every block of the systematic symref family (symbol touched d ≤ 4 region levels below its block) and of
+    # random nested symref programs
+    sym_cases = proggen.symref_depth_cases(2 if ctx.tier == "quick" else 3)
+    progs = [proggen.symref_depth_program(*c) for c in sym_cases if not c[4] and c[2] == "r"]
+    for _ in range(40 if ctx.tier == "quick" else 400):
+        d = ctx.rng.choice([3, 4])
+        progs.append(proggen.symref_depth_program(tuple(ctx.rng.choice(proggen.SYM_WRAPPERS) for _ in range(d)), ctx.rng.choice(proggen.SYM_ACCESS),
+                                                  ctx.rng.choice(proggen.SYM_AFTER), ctx.rng.choice(proggen.SYM_DECL), ctx.rng.random() < 0.4))
+    sgen = proggen.SymrefGen(ctx.rng, True)
+    progs += [sgen.program() for _ in range(25 if ctx.tier == "quick" else 300)]
+    seen_lines: set[str] = set()
+    for p in progs:
+        for line, impl in symtree_lines(p["text"]):
+            if line in seen_lines:
+                continue
+            seen_lines.add(line)
+            ctx.ev(); ctx.count("model.symtree")
+            if "( (" in line or ") (" in line.split("(", 1)[-1]:
+                ctx.nt(("symtree", line))
+            lines.append(line)
+            expect.append(("symtree", None, p["text"], impl))
 
     outs = ctx.model("loops", lines)
     for (kind, params, text, impl), line, out in zip(expect, lines, outs):
